@@ -24,8 +24,11 @@ def RULE(tier):
             "response). Inputs: every byte string of length <= %d, every string of length <= %d over 16 HTTP-significant bytes, every "
             "single mutation (delete / insert / replace at every position with each of the 16 bytes) of %s, and targeted near-valid "
             "shapes (colon without space, non-hex/signed chunk sizes, bad ports / IPv6 in absolute URLs, 70 kB lines, bad status lines, "
-            "non-UTF-8 event data). Oracle: service() never raises; the sibling's valid request is answered 200; key = (system, hio "
-            "call site, exception type)." % (2 if q else 2, 3 if q else 4, "a 24-message corpus" if q else "the full message corpus"))
+            "non-UTF-8 event data), a request-target grammar (6 prefixes x 1-2 of 17 raw and percent-encoded URL delimiters), a Content-Type grammar (%d types x %d parameter shapes: empty, missing '=', bare ';', quoted, unknown "
+            "codec, ... x 2 bodies) alone and followed by each of %d probe messages on the same keep-alive connection (state left in "
+            "the connection's parser by one message must not make the next one raise). Oracle: service() never raises; the sibling's valid request is answered 200; key = (system, hio "
+            "call site, exception type)." % (2 if q else 2, 3 if q else 4, "a 24-message corpus" if q else "the full message corpus",
+                                           len(CT_TYPES), len(CT_PARAMS), len(PROBE_REQ)))
 
 
 def EXHAUSTIVE(tier):
@@ -59,7 +62,52 @@ TARGETED_RSP = [
     b"HTTP/1.1 301 Moved\r\nContent-Length: 0\r\n\r\n", b"HTTP/1.1 301 Moved\r\nLocation: http://[::1/x\r\nContent-Length: 0\r\n\r\n",
     b"HTTP/1.1 302 Found\r\nLocation: http://h:99999/x\r\nContent-Length: 0\r\n\r\n", b"HTTP/1.1 302 Found\r\nLocation: \xff\r\nContent-Length: 0\r\n\r\n",
     b"HTTP/1.1 200 OK\r\nContent-Length: -1\r\n\r\n", b"HTTP/1.1 200 " + b"r" * 70000 + b"\r\n\r\n", b"HTTP/3 200 OK\r\n\r\n",
+    b"HTTP/1.1 302 Found\r\nLocation: http://no-such-host.invalid/x\r\nContent-Length: 0\r\n\r\n",
+    b"HTTP/1.1 302 Found\r\nLocation: https://no-such-host.invalid/x\r\nContent-Length: 0\r\n\r\n",
+    b"HTTP/1.1 302 Found\r\nLocation: http://a..b/x\r\nContent-Length: 0\r\n\r\n", b"HTTP/1.1 302 Found\r\nLocation: //%5Bx/\r\nContent-Length: 0\r\n\r\n",
+    b"HTTP/1.1 302 Found\r\nLocation: http://h:0/x\r\nContent-Length: 0\r\n\r\n", b"HTTP/1.1 302 Found\r\nLocation: ?\r\nContent-Length: 0\r\n\r\n",
+    b"HTTP/1.1 302 Found\r\nLocation: http://[::1]:6101/x\r\nContent-Length: 0\r\n\r\n", b"HTTP/1.1 302 Found\r\nLocation:\r\nContent-Length: 0\r\n\r\n",
 ]
+
+
+# request-target grammar: delimiters of the URL syntax, raw and percent-encoded, after each kind of prefix
+TGT_PREFIX = [b"/", b"//", b"http://", b"http://h", b"/a/", b"*"]
+TGT_PIECES = [b"%5B", b"[", b"%5D", b"]", b":99999", b":ab", b"%3A99999", b"@", b"%40", b"?", b"%3F", b"#", b"%23", b"%2F%2F", b"%", b"%zz", b"x"]
+
+
+def target_requests():
+    for pre in TGT_PREFIX:
+        for a in TGT_PIECES:
+            yield b"GET " + pre + a + b" HTTP/1.1\r\nHost: h\r\n\r\n"
+            for b in TGT_PIECES:
+                yield b"GET " + pre + a + b + b"/ HTTP/1.1\r\nHost: h\r\n\r\n"
+
+
+# Content-Type grammar: every type x every parameter shape (well-formed, empty, missing '=', bare ';', unknown codec, quoted, ...)
+CT_TYPES = [b"text/plain", b"application/json", b"text/event-stream", b"application/x-www-form-urlencoded", b"multipart/form-data"]
+CT_PARAMS = [b"", b"; charset=utf-8", b"; charset=", b"; charset", b"; utf-8", b"; =", b";", b"; ", b";;", b"; charset = utf-8",
+             b'; charset="utf-8"', b"; charset=nonexistent", b"; boundary=xx", b"; a=b; c", b"; a; b=c", b"; charset=utf-8; q",
+             b";charset=latin-1", b"; charset=utf-8;"]
+CT_BODIES = [b"\xc3\xa9\xff{", b'{"a": 1}']
+
+
+def ct_message(side, ti, pi, bi):
+    t, prm, body = CT_TYPES[ti], CT_PARAMS[pi], CT_BODIES[bi]
+    if t == b"text/event-stream":
+        body = b"data: " + body + b"\n\n"
+    if side == "rsp":
+        return b"HTTP/1.1 200 OK\r\nContent-Type: " + t + prm + b"\r\nContent-Length: %d\r\n\r\n" % len(body) + body
+    return b"POST /p HTTP/1.1\r\nHost: h\r\nContent-Type: " + t + prm + b"\r\nContent-Length: %d\r\n\r\n" % len(body) + body
+
+
+# second message on the same keep-alive connection (what the first one left behind in the connection's parser must not matter)
+PROBE_REQ = [b"GET /a%20b%C3%A9?x=%C3%A9 HTTP/1.1\r\nHost: h\r\n\r\n", b"GET /%ff HTTP/1.1\r\nHost: h\r\n\r\n", b"GET / HTTP/1.1\r\nHost: h\r\n\r\n",
+             b"POST /j HTTP/1.1\r\nHost: h\r\nContent-Type: application/json\r\nContent-Length: 7\r\n\r\n{\"a\":1}",
+             b"POST /c HTTP/1.1\r\nHost: h\r\nTransfer-Encoding: chunked\r\n\r\n2\r\n\xc3\xa9\r\n0\r\n\r\n"]
+PROBE_RSP = [b"HTTP/1.1 200 OK\r\nContent-Length: 2\r\n\r\n\xc3\xa9", b"HTTP/1.1 200 OK\r\nContent-Type: application/json\r\nContent-Length: 7\r\n\r\n{\"a\":1}",
+             b"HTTP/1.1 200 OK\r\nContent-Type: text/plain; charset=utf-8\r\nContent-Length: 2\r\n\r\n\xff\xfe",
+             b"HTTP/1.1 200 OK\r\nTransfer-Encoding: chunked\r\n\r\n2\r\n\xc3\xa9\r\n0\r\n\r\n",
+             b"HTTP/1.1 301 Moved\r\nLocation: /%ff\r\nContent-Length: 0\r\n\r\n"]
 
 
 def corpus(tier):
@@ -88,6 +136,10 @@ def jobs(tier):
         for i in range(len(msgs)):
             js.append((sysname, "mut", i))
         js.append((sysname, "targeted"))
+        for ti in range(len(CT_TYPES)):
+            js.append((sysname, "ctype", ti))
+        if sysname != "client":
+            js.append((sysname, "target"))
     return js
 
 
@@ -152,7 +204,7 @@ def run_server(sysname, frags):
     return v, obs
 
 
-def run_client(frags):
+def run_client(frags, nreq=1):
     net = fakenet.Net()
     v = []
     with fakenet.Installed(net):
@@ -162,7 +214,8 @@ def run_client(frags):
         ls.listen(5)
         client = http.Client(hostname="127.0.0.1", port=6101)
         client.reopen()
-        client.request(method="GET", path="/x")
+        for k in range(nreq):
+            client.request(method="GET", path="/x%d" % k)
         escaped = None
 
         def svc():
@@ -210,6 +263,16 @@ def run_case(sysname, data, split=None):
     if sysname == "client":
         return run_client(frags)
     return run_server(sysname, frags)
+
+
+def run_pair(sysname, ti, pi, bi, qi, together):
+    """a Content-Type shaped message followed by a probe message on the same keep-alive connection"""
+    side = "rsp" if sysname == "client" else "req"
+    first = ct_message(side, ti, pi, bi)
+    second = (PROBE_RSP if sysname == "client" else PROBE_REQ)[qi]
+    if sysname == "client":
+        return run_client([first, second], nreq=2)      # the second response can only follow the second request
+    return run_server(sysname, [first + second] if together else [first, second])
 
 
 def mutations(msg):
@@ -264,6 +327,24 @@ def run_job(job, tier, seed):
             do(m)
             if k % 7 == 0:
                 do(m, split=len(m) // 2)
+    elif kind == "target":
+        for data in target_requests():
+            do(data)
+    elif kind == "ctype":
+        ti = job[2]
+        side = "rsp" if sysname == "client" else "req"
+        for pi in range(len(CT_PARAMS)):
+            for bi in range(len(CT_BODIES)):
+                data = ct_message(side, ti, pi, bi)
+                do(data)
+                do(data, split=len(data) - 3)
+                for qi in range(len(PROBE_REQ)):
+                    for together in ((0,) if sysname == "client" else (0, 1)):
+                        viols, obs = run_pair(sysname, ti, pi, bi, qi, together)
+                        viols = [(k + ":second-message", m) for k, m in viols]
+                        cnt += 1
+                        acc.case([sysname, ["pair", ti, pi, bi, qi, together], None], obs, viols,
+                                 sample=dict(system=sysname, first=repr(data[:70]), probe=qi, observed=repr(obs))) if (viols or cnt % 97 == 1) else acc.bulk(1, 1)
     else:
         for data in (TARGETED_RSP if sysname == "client" else TARGETED_REQ):
             do(data)
@@ -274,6 +355,8 @@ def run_job(job, tier, seed):
 
 def replay(job, case):
     sysname, data, split = case
+    if data and data[0] == "pair":
+        return [(k + ":second-message", m) for k, m in run_pair(sysname, *data[1:])[0]]
     if data and data[0] == "targeted":
         data = (TARGETED_RSP if sysname == "client" else TARGETED_REQ)[data[1]]
     else:
